@@ -556,6 +556,13 @@ class AsyncFIXConnection:
 
         if self._connection_role == ConnectionRole.ACCEPTOR:
             assert self._connection_state == ConnectionState.LOGON_INITIAL_RECV
+            if FTag.EncryptMethod not in logon_msg or FTag.HeartBtInt not in logon_msg:
+                # Logon can't be confirmed: no session, nothing else may be processed
+                await self.disconnect(
+                    ConnectionState.DISCONNECTED_BROKEN_CONN,
+                    logout_message="Logon without EncryptMethod / HeartBtInt",
+                )
+                return
             if msg_seq_num >= self._session.next_num_in:
                 msg_logon = FIXMessage(FMsg.LOGON)
                 msg_logon.set(FTag.EncryptMethod, logon_msg[FTag.EncryptMethod])
@@ -861,6 +868,12 @@ class AsyncFIXConnection:
                     return
                 await self._state_set(ConnectionState.LOGON_INITIAL_RECV)
                 self._connection_role = ConnectionRole.ACCEPTOR
+            elif self._connection_state == ConnectionState.LOGON_INITIAL_RECV:
+                # Logon() of initiator was received, but its processing has failed
+                #   (no Logon() response sent), no session established
+                if msg.msg_type != FMsg.LOGON:
+                    await self.disconnect(ConnectionState.DISCONNECTED_BROKEN_CONN)
+                    return
             elif self._connection_state == ConnectionState.LOGON_INITIAL_SENT:
                 # Applicable only for initiator
                 if msg.msg_type != FMsg.LOGON:
